@@ -176,6 +176,6 @@ class Imputer(_SeriesToSeriesTransformer):
         rng = check_random_state(self.random_state)
         # check if series contains only int or int-like values (e.g. 3.0)
         if (Z.dropna() % 1 == 0).all():
-            return rng.randint(Z.min(), Z.max())
+            return rng.randint(Z.min(), Z.max() + 1)
         else:
             return rng.uniform(Z.min(), Z.max())
